@@ -43,8 +43,15 @@ def install():
     def _format(obj, format_spec=""):
         with NoTracing():
             is_sym = isinstance(obj, SymbolicInt)
+            user_fmt = None
+            if not is_sym and not isinstance(obj, (int, float, str, bytes, bool, type(None))):
+                f = getattr(type(obj), "__format__", None)
+                if f is not None and f is not object.__format__ and getattr(f, "__code__", None) is not None:
+                    user_fmt = f      # a Python-level __format__ (repository class or harness stub): no realisation of the object
         if is_sym:
             return sym_format(obj, format_spec)
+        if user_fmt is not None:
+            return user_fmt(obj, format_spec)
         return orig(obj, format_spec)
     core._PATCH_REGISTRATIONS[format] = _format
     from crosshair.tracers import COMPOSITE_TRACER
